@@ -15,7 +15,6 @@ import (
 	"os"
 	"sort"
 	"strings"
-	"time"
 
 	"github.com/idena-network/idena-go/blockchain/fee"
 	"github.com/idena-network/idena-go/blockchain/types"
@@ -130,8 +129,14 @@ func (r *c14run) mk(t c14tx) *types.Transaction {
 			}
 		case types.SubmitAnswersHashTx:
 			tx.Payload = salt[:]
-		default: // EvidenceTx, SubmitLongAnswersTx: free payload
+		default: // EvidenceTx, SubmitLongAnswersTx (epoch 0): free payload
 			tx.Payload = salt[:8]
+			if t.Pl > 8 {
+				tx.Payload = make([]byte, t.Pl)
+				for i := range tx.Payload {
+					tx.Payload[i] = byte(i*11 + t.Salt)
+				}
+			}
 		}
 		stx, err := types.SignTx(tx, r.w.keys[t.S])
 		if err != nil {
@@ -709,6 +714,27 @@ func (r *c14run) exec(op c14op) error {
 				r.hit("build:over-cap")
 			}
 		}
+		{ // does the priority phase alone want more than the cap? (chains up to each sender's last ceremony tx)
+			lastPrio := map[common.Address]uint32{}
+			for _, tx := range sorted {
+				if tx.Type >= 5 && tx.Type <= 8 {
+					a, _ := types.Sender(tx)
+					if tx.AccountNonce > lastPrio[a] {
+						lastPrio[a] = tx.AccountNonce
+					}
+				}
+			}
+			demand := uint64(0)
+			for _, tx := range sorted {
+				a, _ := types.Sender(tx)
+				if tx.AccountNonce <= lastPrio[a] {
+					demand += uint64(fee.CalculateGas(tx))
+				}
+			}
+			if demand > r.w.gasCap {
+				r.hit("build:priority-phase-over-cap")
+			}
+		}
 		if len(res) > 0 {
 			r.hit("build:non-empty")
 		}
@@ -845,15 +871,8 @@ func init() {
 			if err != nil {
 				return err
 			}
-			var conc struct {
-				Replay struct {
-					Concurrent bool  `json:"concurrent"`
-					Seed       int64 `json:"seed"`
-				} `json:"replay"`
-			}
-			if json.Unmarshal(b, &conc) == nil && conc.Replay.Concurrent {
-				c.Rep.Evaluations = 1
-				return c14concurrent(c, 10*time.Second, conc.Replay.Seed)
+			if c14isConcReplay(b) {
+				return nil // a replay of the concurrency channel (C14conc)
 			}
 			var wrap struct {
 				Replay c14case `json:"replay"`
@@ -897,12 +916,6 @@ func init() {
 			}
 			if i < 2 {
 				c.Sample(cs)
-			}
-		}
-		// observation only (runtime fact, outside the theorems): real concurrency, thorough tier
-		if c.Tier == "thorough" || os.Getenv("VERIF_C14_CONC") != "" {
-			if err := c14concurrent(c, 15*time.Second, c.Seed); err != nil {
-				return fmt.Errorf("concurrency observation: %v", err)
 			}
 		}
 		return nil
